@@ -272,6 +272,33 @@ def _(case):
     V = np.array(case["V"], dtype=float)
     return [V], lambda a: PU.incomplete_valuation_profile_to_complete_valuation_profile(PU.ValuationProfile.of(a[0]))
 
+def _util(name):
+    def f(case):
+        import socialchoicekit.utils as U
+        from socialchoicekit.profile_utils import StrictCompleteProfile, ValuationProfile
+        rng = __import__("random").Random(case["seed"])
+        if name == "break_tie":
+            k = rng.randint(1, 6); alts = rng.sample(range(1, 12), k)      # tied alternatives in an arbitrary order (a caller may pass any array)
+            tb = ["first", "accept", "random"][case["seed"] % 3]
+            arr = np.array(alts, dtype=[np.int64, np.int32, float][case["seed"] % 3])
+            def th(a):
+                np.random.seed(case["seed"]); r = U.break_tie(a[0], tb)
+                return r if tb != "random" else None      # (the random pick is not compared across runs)
+            return [arr], th
+        if name == "check_profile":
+            A = prof(case); return [A], lambda a: U.check_profile(StrictCompleteProfile.of(a[0]), is_complete=True, is_strict=True)
+        if name == "check_valuation_profile":
+            Vv = np.array(case["Vc"], dtype=float); return [Vv], lambda a: U.check_valuation_profile(ValuationProfile.of(a[0]), is_complete=True)
+        if name == "check_square_matrix":
+            B = np.array(case["BS"], dtype=float); return [B], lambda a: U.check_square_matrix(a[0])
+        if name == "check_graph":
+            G = {int(k): [int(v) for v, _ in a] for k, a in case["G"]}; return [G], lambda a: U.check_graph(a[0])
+        G = {int(k): [int(v) for v in a] for k, a in case["BG"]}
+        return [G, list(case["BX"]), list(case["BY"])], lambda a: U.check_bipartite_graph(a[0], a[1], a[2])
+    return f
+for _n in ("break_tie", "check_profile", "check_valuation_profile", "check_square_matrix", "check_graph", "check_bipartite_graph"):
+    ENTRIES[_n] = (_util(_n), _n == "check_profile")
+
 class C20(Prop):
     translators = ['posgraph', 'flow', 'bip']   # regenerated from the source on every run (harness/translate.py)
     pid = "C20"
